@@ -739,6 +739,21 @@ func TestC18Names(t *testing.T) {
 		got := append([]att{}, log...)
 		madeNow := append([]*fakeConn{}, made...)
 		mu.Unlock()
+		// the worker that delivered the winning connection may pick up the next target in the
+		// same instant, before Dial has returned and cancelled its context (the virtual-time
+		// stage accepts such same-instant starts too): attempts after the first success are
+		// not part of the sequence, and the connection returned is the first one made
+		if okHost >= 0 {
+			for i, a := range got {
+				if a.Host == fmt.Sprintf("v%d.example", okHost) {
+					got = got[:i+1]
+					break
+				}
+			}
+			if len(madeNow) > 1 {
+				madeNow = madeNow[:1]
+			}
+		}
 		rp["attempts"] = fmt.Sprint(got)
 		if isPanic(derr) {
 			ev.Violation(t, "C18", rp, "Dial panicked: %v", derr)
